@@ -7,7 +7,7 @@ TRUSTED = ["Lean 4.33.0 kernel", "axioms: propext, Classical.choice, Quot.sound 
            "model Model/Engine.lean (check points after each changing iteration of a looping SCC and at the end of a non-looping SCC; early return "
            "drops the SCC's local indices) tied by compiled programs with #![generate_run_timeout] under the virtual clock hook "
            "(ascent::internal::verif::arm_deadline): the k-th clock reading fires, for EVERY k up to the number of readings of the uninterrupted run",
-           "the wall clock itself is replaced by the hook (real Instant only in the un-armed run() path); aggregation inherits finding F2"]
+           "the wall clock itself is replaced by the hook (real Instant only in the un-armed run() path); aggregation-free programs in the theorems; programs with aggregation are tied only"]
 MAXK = 14
 
 
